@@ -1,7 +1,8 @@
 (* C05 — Written directories: root within the first 16 KiB, root + leaves reproduce the entries. *)
-From Coq Require Import NArith ZArith List Lia.
+From Coq Require Import String NArith ZArith List Lia.
+From Flocq Require IEEE754.Bits.
 Import ListNotations.
-From PM Require Import Gen.Generated Model.Varint Model.Directory Model.DirBuild Proofs.DirBuild.
+From PM Require Import Gen.Generated Model.Varint Model.Directory Model.DirBuild Proofs.DirBuild Model.F32 Model.DirBuildF32 Proofs.DirBuildF32.
 Open Scope N_scope.
 
 (* the budgets the writer commands pass, the header length and what a reader fetches first — regenerated from the source *)
@@ -9,6 +10,13 @@ Theorem C05_budgets :
   Generated.root_budget_convert = 16257%Z /\ Generated.root_budget_extract = 16257%Z /\
   (Z.of_nat Generated.header_len + Generated.root_budget_convert = Generated.root_fetch_len)%Z /\ Generated.root_fetch_len = 16384%Z.
 Proof. repeat split; reflexivity. Qed.
+
+(* the constants of the leaf-size loop, regenerated from optimizeDirectories: the flat-root limit 16384, leafSize = float32(len)/3500,
+   floor 4096, factor 1.2 - and the model's factor is the binary32 nearest to 1.2 (what the Go compiler makes of the literal) *)
+Theorem C05_loop_constants :
+  Generated.optimize_int_literals = [16384; 0; 0; 3500; 4096; 4096]%Z /\ Generated.optimize_float_literals = ["1.2"%string] /\
+  Bits.bits_of_b32 (F32.f32_div (F32.f32_of_Z 12) (F32.f32_of_Z 10)) = 1067030938%Z /\ Bits.bits_of_b32 F32.f32_1_2 = 1067030938%Z. (* 0x3F99999A *)
+Proof. repeat split; vm_compute; reflexivity. Qed.
 
 Section AnySerializer.
 (* any directory serializer with a round trip: serialize_entries, or gzip ∘ serialize_entries *)
@@ -77,6 +85,27 @@ Proof.
     + unfold build_roots_leaves. rewrite chunks_single; [|subst; discriminate|unfold small_limit in Hlen; lia].
       cbn [map ptrs fst]. apply Hone. reflexivity.
 Qed.
+
+(* ... and for EVERY entry count a Go slice can have (2^62 entries of 24 bytes exceed the address space): the sizes the loop walks are
+   the float32 sequence  max(float32(n)/3500, 4096), then *= 1.2  (Model/F32.v, Flocq binary32); after finitely many rounds - before
+   anything overflows - a size holds all entries in one leaf, whose single pointer fits; every size walked until then is >= 4096.
+   No monotonicity of the float32 division is assumed: the start value is whatever the division gives. *)
+Theorem C05_terminates_all : forall es target,
+  (Z.of_nat (length es) <= 2^62)%Z ->
+  (forall c, (length c <= 1)%nat -> N.of_nat (length (ser c)) <= target) ->
+  exists k, optimize ser es target (go_sizes (N.of_nat (length es)) k) <> None /\
+            Forall (fun s => 4096 <= s) (go_sizes (N.of_nat (length es)) k).
+Proof.
+  intros es target Hlen Hone.
+  destruct (go_sizes_reach (N.of_nat (length es))) as (k & s & Hin & Hs & Hall); [rewrite nat_N_Z; exact Hlen|].
+  exists k. split; [|exact Hall]. unfold optimize.
+  destruct ((N.of_nat (length es) <? 16384) && (N.of_nat (length (ser es)) <=? target))%bool; [discriminate|].
+  apply (try_sizes_found ser _ es target s Hin). unfold build_roots_leaves.
+  destruct es as [|e r] eqn:Ees.
+  - cbn. apply Hone. cbn; lia.
+  - rewrite <- Ees in *. rewrite chunks_single; [|subst; discriminate|lia].
+    cbn [map ptrs fst]. apply Hone. reflexivity.
+Qed.
 End AnySerializer.
 
 (* non-vacuity with the uncompressed serializer: 5 entries, leaf size 2, budget too small for the flat root *)
@@ -87,7 +116,9 @@ Example C05_ex : optimize serialize_entries ex_es 13 [2] =
 Proof. vm_compute. reflexivity. Qed.
 
 Print Assumptions C05_budgets.
+Print Assumptions C05_loop_constants.
 Print Assumptions C05_root_fits.
 Print Assumptions C05_within_16k.
 Print Assumptions C05_structure.
 Print Assumptions C05_terminates.
+Print Assumptions C05_terminates_all.
